@@ -25,6 +25,10 @@ type cfg08 struct {
 	amode pb.SubscriptionList_Mode
 	// late: a third subscriber starts (initial walk) while the writer is writing
 	late bool
+	// feeds2: a second feed goroutine (target t2's update stream) runs this
+	// script at the same time as the first: the subscribers are all-targets
+	// subscribers, so two goroutines insert into each queue at once
+	feeds2 []wop
 }
 
 func configs08(tier string) []xplore.Config {
@@ -62,6 +66,12 @@ func configs08(tier string) []xplore.Config {
 	// a subscriber registers (or a timed-out one is removed)
 	for _, st := range []string{"never", "permanent"} {
 		out = append(out, xplore.Config{Name: fmt.Sprintf("A stall=%s | B normal | C subscribes while W=atomic a/k;upd a/b;atomic a/k", st), Bound: bound + 1, Data: cfg08{stall: st, script: []wop{{"atomic", "a/k"}, {"upd", "a/b"}, {"atomic", "a/k"}}, late: true}})
+	}
+	// two targets streaming at once into all-targets subscribers (two feed
+	// goroutines per queue): the healthy subscriber keeps receiving from both
+	// while the other one is stalled
+	for _, st := range []string{"never", "permanent"} {
+		out = append(out, xplore.Config{Name: fmt.Sprintf("A(*) stall=%s | B(*) normal | W(t1)=upd a/b;upd a/c || W(t2)=upd a/b;upd a/c (two feeds)", st), Bound: bound, Data: cfg08{stall: st, script: []wop{{"upd", "a/b"}, {"upd", "a/c"}}, feeds2: []wop{{"upd", "a/b"}, {"upd", "a/c"}}}})
 	}
 	// the send time-out ends a stalled subscription in every mode
 	for _, md := range []pb.SubscriptionList_Mode{pb.SubscriptionList_ONCE, pb.SubscriptionList_POLL} {
@@ -130,10 +140,88 @@ func run08acl(cfg xplore.Config, d cfg08, ch vrt.Chooser, trace bool) (xplore.Ou
 	return out, res
 }
 
+// run08feeds: two update streams (t1, t2) feeding all-targets subscribers.
+func run08feeds(cfg xplore.Config, d cfg08, ch vrt.Chooser, trace bool) (xplore.Outcome, *vrt.Result) {
+	var out xplore.Outcome
+	res := vrt.Run(ch, vrt.Options{Reverse: cfg.Reverse, Trace: trace, EarlyTimers: true}, func() {
+		w := newWorld([]string{"t1", "t2"})
+		setupInitial(w)
+		stall := d.stall
+		if stall == "never" {
+			stall = ""
+		}
+		a := newStream(subSpec{target: "*", paths: []string{"a"}, mode: pb.SubscriptionList_STREAM, stall: stall})
+		b := newStream(subSpec{target: "*", paths: []string{"a"}, mode: pb.SubscriptionList_STREAM})
+		w.streams = []*fstream{a, b}
+		for i, st := range w.streams {
+			st := st
+			vrt.GoNamed(fmt.Sprintf("sub%c", 'A'+i), func() {
+				st.status = w.srv.Subscribe(st)
+				st.returned = true
+				st.cancel()
+			})
+		}
+		vrt.Idle()
+		if b.returned || len(b.syncSeen) != 1 {
+			viol(&out, "setup", "B did not reach the streaming state: returned=%v status=%v log=%s", b.returned, b.status, renderLog(b.log))
+			return
+		}
+		ws := []writer{{"t1", d.script}, {"t2", d.feeds2}}
+		done := make([]bool, len(ws))
+		for i, wr := range ws {
+			i, wr := i, wr
+			vrt.GoNamed("feed-"+wr.target, func() {
+				for _, o := range wr.script {
+					w.apply(wr.target, o)
+				}
+				done[i] = true
+			})
+		}
+		vrt.Idle()
+		out.Nontrivial = true
+		out.Obs = fmt.Sprintf("A:%v %s | B: %s", a.status, renderLog(a.log), renderLog(b.log))
+		for i, ok := range done {
+			if !ok {
+				viol(&out, "writer-blocked", "feed %d is blocked while subscriber A is %s: %v", i, d.stall, vrt.ParkedInfo())
+				return
+			}
+		}
+		if b.returned {
+			viol(&out, "other-subscriber-ended", "B ended with %v", b.status)
+		} else {
+			checkStream04(&out, w, cfg04{writers: ws}, 1, b)
+		}
+		if d.stall == "never" {
+			if a.returned {
+				viol(&out, "stream-ended", "A never stalled, yet ended with %v", a.status)
+			} else {
+				checkStream04(&out, w, cfg04{writers: ws}, 0, a)
+			}
+		}
+		if a.gate != nil {
+			a.gate.Open()
+		}
+		for _, st := range w.streams {
+			st.cancel()
+		}
+		vrt.Idle()
+		if !vrt.AllDone() {
+			viol(&out, "deadlock", "threads never finished after cancel: %v", vrt.ParkedInfo())
+		}
+	})
+	if res.Aborted != "" {
+		viol(&out, hutil.AbortClass(res.Aborted, res.Panic), "%s %s", res.Aborted, strings.Join(res.Parked, "; "))
+	}
+	return out, res
+}
+
 func run08(cfg xplore.Config, ch vrt.Chooser, trace bool) (xplore.Outcome, *vrt.Result) {
 	d := cfg.Data.(cfg08)
 	if d.acl {
 		return run08acl(cfg, d, ch, trace)
+	}
+	if len(d.feeds2) > 0 {
+		return run08feeds(cfg, d, ch, trace)
 	}
 	var out xplore.Outcome
 	maxSteps := 0
